@@ -661,6 +661,9 @@ impl Statement {
 
     fn r#delete(parse: &mut BasicParser) -> Result<Statement> {
         let column = parse.col.clone();
+        if let None | Some(Token::Colon) | Some(Token::Word(Word::Else)) = parse.peek() {
+            return Err(error!(IllegalFunctionCall, ..&column; "EXPECTED LINE NUMBER RANGE"));
+        }
         let (from, to) = parse.expect_line_number_range()?;
         Ok(Statement::Delete(column, from, to))
     }
